@@ -332,7 +332,7 @@ def run_check(check, tier, seed):
     rdir = os.path.join(REPLAY_DIR, check.id)
     replayed = 0
     known_by_replay = {k.get("replay"): k for k in known if k.get("status") == "known" and k.get("replay")}
-    if os.path.isdir(rdir):
+    if os.path.isdir(rdir) and not os.environ.get("VCHECK_NOREPLAY"):      # (diagnostics: search without the replay tier)
         for fn in sorted(os.listdir(rdir)):
             if not fn.endswith(".json"):
                 continue
